@@ -51,6 +51,32 @@ func extractAll(repo string) {
 	F.Facts["sstable.bloom.fpr"] = one(st.callArgs("NewBlockBloomFilterBuilder", "bloomfilter.NewBloomFilter", 0), "bloom false-positive rate")
 	F.Facts["sstable.bloom.expected"] = st.fieldInit("DefaultWriterOptions", "ExpectedEntriesPerBlock")
 	F.Facts["sstable.bloom.default"] = st.fieldInit("DefaultWriterOptions", "EnableBloomFilter")
+
+	// ---- call-order facts of the write / flush / recovery path (premises of the engine model)
+	w = P(repo, "pkg/wal")
+	F.Facts["wal.Append.order"] = w.callOrder("WAL.Append", "mu.Lock", "writeRecord", "writeFragmentedRecord", "notifyEntryObservers", "maybeSync")
+	F.Facts["wal.AppendBatch.order"] = w.callOrder("WAL.AppendBatch", "mu.Lock", "writer.Flush", "writeRecord", "notifyBatchObservers", "maybeSync")
+	F.Facts["wal.syncLocked.order"] = w.callOrder("WAL.syncLocked", "writer.Flush", "file.Sync", "notifySyncObservers")
+	F.Facts["wal.Close.order"] = w.callOrder("WAL.Close", "writer.Flush", "file.Sync", "file.Close")
+	F.Facts["wal.AppendBatch.nextSequence"] = w.assignedExprSel("WAL.AppendBatch", "w.nextSequence")
+	sm := P(repo, "pkg/engine/storage")
+	F.Facts["storage.Put.order"] = sm.callOrder("Manager.Put", "mu.Lock", "mu.RLock", ".Append", "memTablePool.Put", "scheduleFlush")
+	F.Facts["storage.Delete.order"] = sm.callOrder("Manager.Delete", "mu.Lock", "mu.RLock", ".Append", "memTablePool.Delete", "scheduleFlush")
+	F.Facts["storage.ApplyBatch.order"] = sm.callOrder("Manager.ApplyBatch", "mu.Lock", "mu.RLock", ".AppendBatch", "memTablePool.Put", "memTablePool.Delete", "scheduleFlush")
+	F.Facts["storage.ApplyBatch.seqNum"] = sm.assignedExpr("Manager.ApplyBatch", "seqNum")
+	F.Facts["storage.Get.order"] = sm.callOrder("Manager.Get", "mu.Lock", "mu.RLock", "memTablePool.Get", "NewIterator", ".Seek", "IsTombstone")
+	F.Facts["storage.rotateWAL.order"] = sm.callOrder("Manager.rotateWAL", "SetRotating", "wal.NewWAL", "UpdateNextSequence", "atomic.StorePointer", "oldWAL.Close")
+	F.Facts["storage.FlushMemTables.order"] = sm.callOrder("Manager.FlushMemTables", "flushMu.Lock", "rotateWAL", "flushMemTable")
+	F.Facts["storage.flushMemTable.order"] = sm.callOrder("Manager.flushMemTable", "sstable.NewWriter", "AddWithSequence", "writer.Finish", "sstable.OpenReader", "mu.Lock")
+	F.Facts["storage.scheduleFlush.order"] = sm.callOrder("Manager.scheduleFlush", "SwitchToNewMemTable", "append")
+	F.Facts["storage.recoverFromWAL.order"] = sm.callOrder("Manager.recoverFromWAL", "memtable.RecoverFromWAL", "UpdateNextSequence", "SetImmutable", "SetActiveMemTable")
+	F.Facts["storage.NewManager.order"] = sm.callOrder("NewManager", "wal.ReuseWAL", "wal.NewWAL", "loadSSTables", "recoverFromWAL", "backgroundFlush")
+	mt := P(repo, "pkg/memtable")
+	F.Facts["memtable.SwitchToNewMemTable.order"] = mt.callOrder("MemTablePool.SwitchToNewMemTable", "mu.Lock", "flushPending.Store", "SetImmutable", "NewMemTable", "append")
+	F.Facts["memtable.Pool.Get.order"] = mt.callOrder("MemTablePool.Get", "mu.RLock", "active.Get", ".Get")
+	F.Facts["memtable.Insert.order"] = mt.callOrder("SkipList.Insert", "node.setNext", "setNext")
+	F.Facts["memtable.recovery.order"] = mt.callOrder("RecoverFromWAL", "ApproximateSize", "SetImmutable", "NewMemTable", "ProcessWALEntry", "wal.ReplayWALDir")
+	mt.recordConst("MaxHeight")
 }
 
 // forBound: the constant upper bound of the first `for i := 0; i < N; i++` loop in the function.
